@@ -67,6 +67,19 @@ TARGETS = [
      {"option": True, "lists": ["data", "decoded"], "strings": ["hrpgot"]}),
     ("bech32.py", "encode", "encode", [("hrp", "List Char"), ("witver", "Nat"), ("witprog", "Bytes")],
      "Option (List Char)", {"option": True, "strings": ["ret"]}),
+    # ---- fourth batch: script / varint wire format (C19).  A `BytesIO` argument `s` becomes the list of unread bytes and
+    # every function that reads from it also returns the rest (state passing); `Script.cmds` is a `List Script.Cmd`
+    ("helper.py", "read_exact", "read_exact", [("s", "Bytes"), ("n", "Nat")], "Option (Bytes × Bytes)",
+     {"option": True, "stream": "s", "lists": ["data"]}),
+    ("helper.py", "read_varint", "read_varint", [("s", "Bytes")], "Option (Nat × Bytes)",
+     {"option": True, "stream": "s"}),
+    ("script.py", "Script.raw_serialize", "raw_serialize", [("cmds", "List Script.Cmd")], "Option Bytes",
+     {"option": True, "lists": ["result"], "self_attrs": {"cmds": "cmds"}, "cmd_var": "cmd"}),
+    ("script.py", "Script.serialize", "serialize", [("cmds", "List Script.Cmd")], "Option Bytes",
+     {"option": True, "lists": ["result"], "self_attrs": {"cmds": "cmds"}, "self_calls": {"raw_serialize": ["cmds"]}}),
+    ("script.py", "Script.parse", "script_parse", [("s", "Bytes")], "Option (List Script.Cmd × Bytes)",
+     {"option": True, "stream": "s", "cmd_list": "cmds", "while_fuel": "(s).length + 1", "lists": ["current"],
+      "ctor_returns": "cls"}),
     ("bip39.py", "correct_entropy_bits_value", "correct_entropy_bits_value", [("entropy_bits", "Nat")],
      "Option Unit", {"option": True}),
     ("bip39.py", "mnemonic_from_entropy", "mnemonic_from_entropy", [("entropy", "List Char")],
@@ -92,6 +105,7 @@ EXTRA_PARAMS = {t[2]: [a for a, _ in t[5].get("extra", [])] for t in TARGETS}
 STRING_GLOBALS = {"BASE58_ALPHABET", "CHARSET"}
 ARG_TYPES = {t[2]: [ty for _, ty in t[3]] for t in TARGETS}
 PY_DEFAULTS = {}       # lean name -> list of python default expressions (filled while parsing)
+STREAM_FUNCS = {"read_exact", "read_varint"}
 LISTY_FUNCS = {"bech32_hrp_expand", "int_to_little_endian", "bech32_create_checksum", "int_to_big_endian",
                "decode_base58", "decode_base58_checksum", "encode_base58", "encode_base58_checksum", "hash256", "sha256"}
 
@@ -114,6 +128,14 @@ class Fn:
         self.nat_subs = []
         self.bools = {a for a, t in args if t == "Bool"}
         self.declared = [set(a for a, _ in args)]
+        self.stream = opts.get("stream")
+        self.self_attrs = opts.get("self_attrs", {})
+        self.self_calls = opts.get("self_calls", {})
+        self.cmd_var = opts.get("cmd_var")
+        self.cmd_list = opts.get("cmd_list")
+        self.ctor_returns = opts.get("ctor_returns")
+        self.bytes_locals = set()
+        self.hoist_n = 0
         self.ints = set(opts.get("ints", []))
         self.bound_opts = set()         # variables assigned from an option-returning call by bind (never None afterwards)
         self.bytes_vars = {a for a, t in args if t == "Bytes"}
@@ -191,6 +213,8 @@ class Fn:
             q = ast.unparse(e)
             if q in GLOBALS:
                 return GLOBALS[q]
+            if isinstance(e.value, ast.Name) and e.value.id == "self" and e.attr in self.self_attrs:
+                return self.self_attrs[e.attr]
             raise Unsupported("attribute " + q)
         if isinstance(e, ast.BinOp):
             if isinstance(e.op, ast.Add) and self.is_listy(e):
@@ -260,6 +284,8 @@ class Fn:
                     return "(%s.take %s)" % (base, self.nat(hi))
                 return "((%s.drop %s).take (%s - %s))" % (base, lo, self.nat(hi), lo)
             idx = e.slice
+            if isinstance(e.value, ast.Name) and e.value.id in self.bytes_locals:
+                return "((%s[%s]!).toNat)" % (base, self.expr(idx))       # indexing a bytes object gives an int
             if isinstance(idx, ast.UnaryOp) and isinstance(idx.op, ast.USub) and \
                     isinstance(idx.operand, ast.Constant) and idx.operand.value == 1:
                 return "(%s.getLast?)" % base       # xs[-1]; callers compare it / must handle none
@@ -339,6 +365,10 @@ class Fn:
                 return "(← fromHex %s)" % self.expr(e.args[0])
             if f.attr == "index" and isinstance(f.value, ast.Name) and f.value.id in STRING_GLOBALS and len(e.args) == 1:
                 return "(%s.idxOf %s)" % (self.expr(f.value), self.expr(e.args[0]))     # only reached after `c in STR`
+            if f.attr in self.self_calls and isinstance(f.value, ast.Name) and f.value.id == "self":
+                lean = KNOWN_FUNCS[f.attr]
+                txt = "(%s %s)" % (lean, " ".join(self.self_calls[f.attr] + [self.expr(a) for a in e.args]))
+                return "(← %s)" % txt if lean in OPTION_FUNCS else txt
             if f.attr == "rfind" and len(e.args) == 1 and self.is_char(e.args[0]):
                 return "(Py.rfind %s %s)" % (self.expr(f.value), self.expr(e.args[0]))      # Int, -1 when absent
             if f.attr in ("lower", "upper") and not e.args and isinstance(f.value, ast.Name) and f.value.id in self.strings:
@@ -466,7 +496,66 @@ class Fn:
     def is_declared(self, n):
         return any(n in d for d in self.declared)
 
+    def hoist(self, s, ind):
+        """state passing for the byte stream: every read_exact(s, n) / read_varint(s) / s.read(n) inside the statement is
+        evaluated first, in source order, into a fresh local and the stream variable is advanced"""
+        pre = []
+        me = self
+
+        class H(ast.NodeTransformer):
+            def visit_Call(self, node):
+                self.generic_visit(node)            # innermost first
+                f = node.func
+                st = me.stream
+                if isinstance(f, ast.Name) and f.id in STREAM_FUNCS and node.args and \
+                        isinstance(node.args[0], ast.Name) and node.args[0].id == st:
+                    me.hoist_n += 1
+                    v = "st%d" % me.hoist_n
+                    args = " ".join([st] + [me.expr(a) for a in node.args[1:]])
+                    pre.append(ind + "let (%s, %s_rest) ← (%s %s)" % (v, v, KNOWN_FUNCS[f.id], args))
+                    pre.append(ind + "%s := %s_rest" % (st, v))
+                    if f.id == "read_exact":
+                        me.bytes_locals.add(v)
+                        me.lists.add(v)
+                    return ast.copy_location(ast.Name(id=v, ctx=ast.Load()), node)
+                if isinstance(f, ast.Attribute) and f.attr == "read" and isinstance(f.value, ast.Name) and \
+                        f.value.id == st and len(node.args) == 1:
+                    me.hoist_n += 1
+                    v = "st%d" % me.hoist_n
+                    n_ = me.expr(node.args[0])
+                    pre.append(ind + "let %s := (%s.take %s)" % (v, st, n_))       # BytesIO.read: at most n bytes
+                    pre.append(ind + "%s := (%s.drop %s)" % (st, st, n_))
+                    me.bytes_locals.add(v)
+                    me.lists.add(v)
+                    return ast.copy_location(ast.Name(id=v, ctx=ast.Load()), node)
+                return node
+        if isinstance(s, (ast.Assign, ast.AugAssign, ast.Return, ast.Expr)) and getattr(s, "value", None) is not None:
+            s.value = H().visit(s.value)
+        return pre
+
     def stmt(self, s, ind):
+        if self.stream and isinstance(s, (ast.Assign, ast.AugAssign, ast.Return, ast.Expr)):
+            pre = self.hoist(s, ind)
+            if pre:
+                return pre + self._stmt(s, ind)
+        return self._stmt(s, ind)
+
+    def _stmt(self, s, ind):
+        if isinstance(s, ast.If) and self.cmd_var and isinstance(s.test, ast.Compare) and \
+                isinstance(s.test.left, ast.Call) and isinstance(s.test.left.func, ast.Name) and \
+                s.test.left.func.id == "type" and len(s.test.ops) == 1 and isinstance(s.test.ops[0], ast.Eq) and \
+                isinstance(s.test.comparators[0], ast.Name) and s.test.comparators[0].id == "int" and \
+                isinstance(s.test.left.args[0], ast.Name) and s.test.left.args[0].id == self.cmd_var:
+            # `if type(cmd) == int: … else: …` on an element of Script.cmds: the two constructors of Script.Cmd
+            v = self.ident(self.cmd_var)
+            self.bytes_locals.discard(self.cmd_var)
+            out = [ind + "match %s with" % v, ind + "| .op %s =>" % v] + self.block(s.body, ind + "  ")
+            self.bytes_locals.add(self.cmd_var)
+            self.lists.add(self.cmd_var)
+            out += [ind + "| .data %s =>" % v] + self.block(s.orelse, ind + "  ")
+            self.bytes_locals.discard(self.cmd_var)
+            self.lists.discard(self.cmd_var)
+            return out
         if isinstance(s, ast.Expr):
             if isinstance(s.value, ast.Constant) and isinstance(s.value.value, str):
                 return []                          # docstring
@@ -474,7 +563,11 @@ class Fn:
             if isinstance(c, ast.Call) and isinstance(c.func, ast.Attribute) and c.func.attr == "append" \
                     and isinstance(c.func.value, ast.Name):
                 n = self.ident(c.func.value.id)
-                return [ind + "%s := %s ++ [%s]" % (n, n, self.expr(c.args[0]))]
+                item = self.expr(c.args[0])
+                if c.func.value.id == self.cmd_list:
+                    is_b = isinstance(c.args[0], ast.Name) and c.args[0].id in self.bytes_locals
+                    item = "(Script.Cmd.data %s)" % item if is_b else "(Script.Cmd.op %s)" % item
+                return [ind + "%s := %s ++ [%s]" % (n, n, item)]
             if isinstance(c, ast.Call) and isinstance(c.func, ast.Name) and c.func.id in KNOWN_FUNCS and \
                     KNOWN_FUNCS[c.func.id] in OPTION_FUNCS and self.option:
                 t = self.call(c)            # "(← (f args))": run it for its failure only
@@ -522,11 +615,20 @@ class Fn:
                 return [ind + "%s := %s" % (self.ident(n), rhs)]
             self.declared[-1].add(n)
             ann = " : List Nat" if isinstance(s.value, ast.List) and not s.value.elts else ""
+            if n == self.cmd_list and ann:
+                ann = " : List Script.Cmd"
+            if isinstance(s.value, ast.Name) and s.value.id in self.bytes_locals:
+                self.bytes_locals.add(n)
+                self.lists.add(n)
+            if isinstance(s.value, ast.Constant) and isinstance(s.value.value, bytes):
+                self.lists.add(n)
             return [ind + "let mut %s%s := %s" % (self.ident(n), ann, rhs)]
         if isinstance(s, ast.AugAssign):
             if not isinstance(s.target, ast.Name) or type(s.op) not in BINOPS:
                 raise Unsupported("augmented assignment")
             n = self.ident(s.target.id)
+            if isinstance(s.op, ast.Add) and (s.target.id in self.lists or s.target.id in self.strings):
+                return [ind + "%s := (%s ++ %s)" % (n, n, self.as_list(s.value))]
             if isinstance(s.op, ast.Sub):
                 self.nat_subs.append(ast.unparse(s))
             return [ind + "%s := (%s %s %s)" % (n, n, BINOPS[type(s.op)], self.expr(s.value))]
@@ -565,7 +667,13 @@ class Fn:
                 if not self.option:
                     raise Unsupported("tuple of None in a total function")
                 return [ind + "none"]               # (None, ..., None): "no result", like None
-            return [ind + self.ret(self.expr(s.value))]
+            val = s.value
+            if self.ctor_returns and isinstance(val, ast.Call) and isinstance(val.func, ast.Name) and \
+                    val.func.id == self.ctor_returns and len(val.args) == 1:
+                val = val.args[0]                   # cls(cmds): the object is its command list
+            if self.stream:
+                return [ind + "return (%s, %s)" % (self.expr(val), self.stream)]
+            return [ind + self.ret(self.expr(val))]
         if isinstance(s, ast.Break):
             return [ind + "break"]
         if isinstance(s, ast.Continue):
@@ -581,6 +689,8 @@ class Fn:
         body = self.block(self.node.body, "  ")
         assigned = {t.id for n in ast.walk(self.node) if isinstance(n, (ast.Assign, ast.AugAssign))
                     for t in (n.targets if isinstance(n, ast.Assign) else [n.target]) if isinstance(t, ast.Name)}
+        if self.stream:
+            assigned.add(self.stream)
         for a, _ in reversed(self.args):            # a parameter that the body re-assigns becomes a mutable local
             if a in assigned:
                 body.insert(0, "  let mut %s := %s" % (self.ident(a), self.ident(a)))
@@ -630,7 +740,7 @@ def translate_all():
             pyargs = [a.arg for a in node.args.args if a.arg not in ("self", "cls")]
             if False:
                 raise Unsupported("signature changed: %s" % pyargs)
-            if pyargs != [a for a, _ in args]:
+            if pyargs != [a for a, _ in args] and not opts.get("self_attrs"):
                 raise Unsupported("parameter names changed: %s" % pyargs)
             txt = Fn(node, lean, args, ret, opts).emit()
             status[lean] = "ok"
@@ -642,7 +752,7 @@ def translate_all():
         chunks.append("/-- translated from `%s` : `%s` -/\n%s" % (pyfile, qual, txt))
     hdr = ("-- GENERATED by harness/translate.py from /repo's working tree. Do not edit.\n"
            "import BtcHd.Model.Bech32\nimport BtcHd.Model.Text\nimport BtcHd.Model.Bip39\nimport BtcHd.Model.PyBuiltins\n"
-           "import BtcHd.Generated.Misc\nimport BtcHd.Generated.Base58\n\n"
+           "import BtcHd.Model.Script\nimport BtcHd.Generated.Misc\nimport BtcHd.Generated.Base58\n\n"
            "set_option linter.unusedVariables false\n\n"
            "namespace BtcHd.Code\nopen BtcHd\n\n"
            "/-- what an untranslatable function becomes: an opaque value nothing can be proved equal to -/\n"
